@@ -863,6 +863,30 @@ func c09CheckSeq(c *kit.Case, in c09SeqInput) {
 		if !invariantOK {
 			c.Class("balance_below_threshold_before_call")
 		}
+		// new: CASH exactly when the creator, after endowing the child with the child's threshold,
+		// would fall below ITS OWN threshold (own items, octets and gratis offset). Stated both
+		// ways without assuming where HUH / FULL rank among the refusals.
+		if op.Kind == "new" && invariantOK {
+			childThr := c09ExactThreshold(2, c09Big(81+uint64(op.NewL)), op.NewF)
+			short := big.NewInt(0).Sub(bal, childThr).Cmp(thr0) < 0
+			_, isNew := post.Info[uint32(ret)]
+			if _, before := pre.Info[uint32(ret)]; before || ret >= 1<<32 {
+				isNew = false
+			}
+			if ret == CASH && !short {
+				c.Failf("step %d (new l=%d f=%d): returned CASH although balance %s - child threshold %s stays at or above the creator's threshold %s (gratis offset %d)",
+					step, op.NewL, op.NewF, bal, childThr, thr0, uint64(info.DepositOffset))
+			}
+			if isNew && short {
+				c.Failf("step %d (new l=%d f=%d): account %d created although balance %s - child threshold %s is below the creator's threshold %s",
+					step, op.NewL, op.NewF, ret, bal, childThr, thr0)
+			}
+			if short {
+				c.Class("new_would_leave_creator_below_threshold")
+			} else if uint64(info.DepositOffset) > 0 {
+				c.Class("new_affordable_creator_has_gratis_offset")
+			}
+		}
 
 		// (1) every account
 		ids := make([]uint32, 0, len(post.Info))
